@@ -199,9 +199,10 @@ impl Server {
                     (n > 0 ==> !(r matches Ok(f) && !(f is Error))) && final(self).storage.ds@ == old(self).storage.ds@ && final(self).storage.z@ == old(self).storage.z@
                 } else {
                     let s = zpop_upto(old(self).storage, db as int, k, n, true);
-                    // exactly min(n, cardinality) members leave the set, the extreme ones first; a count of 0 pops nothing
+                    // exactly min(n, cardinality) members leave the set, the extreme ones first; a count of 0 pops nothing; nothing popped = an EMPTY array
+                    // (as Redis and as the script path answer; a null array before the repair)
                     r is Ok && final(self).storage.ds@ == s.1 && final(self).storage.ttl@ == s.2 && final(self).storage.z@ == s.3
-                    && (if s.0.len() == 0 { r->Ok_0 == RespFrame::Array(None) } else { r->Ok_0 matches RespFrame::Array(Some(v)) && zpop_reply(v@, s.0) })
+                    && (r->Ok_0 matches RespFrame::Array(Some(v)) && zpop_reply(v@, s.0))
                 }
             }),
 //@@ body
@@ -264,9 +265,10 @@ impl Server {
                     (n > 0 ==> !(r matches Ok(f) && !(f is Error))) && final(self).storage.ds@ == old(self).storage.ds@ && final(self).storage.z@ == old(self).storage.z@
                 } else {
                     let s = zpop_upto(old(self).storage, db as int, k, n, false);
-                    // exactly min(n, cardinality) members leave the set, the extreme ones first; a count of 0 pops nothing
+                    // exactly min(n, cardinality) members leave the set, the extreme ones first; a count of 0 pops nothing; nothing popped = an EMPTY array
+                    // (as Redis and as the script path answer; a null array before the repair)
                     r is Ok && final(self).storage.ds@ == s.1 && final(self).storage.ttl@ == s.2 && final(self).storage.z@ == s.3
-                    && (if s.0.len() == 0 { r->Ok_0 == RespFrame::Array(None) } else { r->Ok_0 matches RespFrame::Array(Some(v)) && zpop_reply(v@, s.0) })
+                    && (r->Ok_0 matches RespFrame::Array(Some(v)) && zpop_reply(v@, s.0))
                 }
             }),
 //@@ body
